@@ -396,33 +396,42 @@ def build_table(I):
         return False
 
     # arithmetic via operator traits (generic code with Self = f64)
+    def _vals(I, st, a):
+        # operator impls exist for &f64 too (`&x * y`): look through references
+        return [deref(I, st, x) if isinstance(x, Ref) else x for x in a]
+
     @reg("Add::add")
     def t_add(I, st, a, c):
+        a = _vals(I, st, a)
         if isinstance(a[0], Date):
             return date_add(I, st, a, c)
         return I.binop(st, "Add", a[0], a[1], "f64")
 
     @reg("Sub::sub")
     def t_sub(I, st, a, c):
+        a = _vals(I, st, a)
         if isinstance(a[0], Date):
             return date_sub(I, st, a, c)
         return I.binop(st, "Sub", a[0], a[1], "f64")
 
     @reg("Mul::mul")
     def t_mul(I, st, a, c):
+        a = _vals(I, st, a)
         return I.binop(st, "Mul", a[0], a[1], "f64")
 
     @reg("Div::div")
     def t_div(I, st, a, c):
+        a = _vals(I, st, a)
         return I.binop(st, "Div", a[0], a[1], "f64")
 
     @reg("Rem::rem")
     def t_rem(I, st, a, c):
+        a = _vals(I, st, a)
         return I.binop(st, "Rem", a[0], a[1], "f64")
 
     @reg("Neg::neg")
     def t_neg(I, st, a, c):
-        return -a[0]
+        return -_vals(I, st, a)[0]
 
     def cmpop(op):
         def h(I, st, a, c):
@@ -560,6 +569,22 @@ def build_table(I):
                 acts.append((None if cond is False else bnot(cond), ("ret", dflt)))
             return acts
         return h
+
+    @reg("Option::filter")
+    def o_filter(I, st, a, c):
+        v, f = a[0], a[1]
+        cond = enum_is(v, "Some")
+        acts = []
+        if cond is not False:
+            x = v.pay["Some"][0]
+            def hook(st2, rv):
+                if isinstance(rv, bool):
+                    return ret(some(x) if rv else none())
+                return [(rv, ("ret", some(x))), (z3.Not(rv), ("ret", none()))]
+            acts.extend(with_cond(None if cond is True else cond, invoke(I, st, f, [Ref(st.alloc(x), ())], hook)))
+        if cond is not True:
+            acts.append((None if cond is False else bnot(cond), ("ret", none())))
+        return acts
 
     T["Result::map_or"] = map_or_like("Ok")
     T["Option::map_or"] = map_or_like("Some")
@@ -834,7 +859,7 @@ def build_table(I):
                 return [(None, panic("HashMap index: no entry found for key %r" % (kk,)))]
             return Ref(r.cell, r.path + (("k", kk),), r.mut)
         if isinstance(cont, (Arr, VecV)):
-            if isinstance(k, Struct) and k.ty == "RangeFull":
+            if (isinstance(k, Struct) and k.ty == "RangeFull") or (isinstance(k, FnItem) and k.name.split("::")[-1] == "RangeFull"):
                 return r
             if is_sym(k):
                 raise _i.Unsupported("symbolic index")
@@ -1067,6 +1092,17 @@ def build_table(I):
             if isinstance(cond, bool):
                 return k(st, more, item) if cond else k(st, it, None)
             return with_cond(cond, k(st, more, item)) + with_cond(z3.Not(cond), k(st, it, None))
+        if kind == "succ":
+            cur, f = it.extra          # cur: Option<T> still to be yielded
+            c_some = enum_is(cur, "Some")
+            acts = []
+            if c_some is not False and "Some" in cur.pay:
+                x = cur.pay["Some"][0]
+                acts += with_cond(None if c_some is True else c_some,
+                                  invoke(I, st, f, [Ref(st.alloc(x), ())], lambda st2, rv: k(st2, Iter("succ", (), 0, (rv, f)), x)))
+            if c_some is not True:
+                acts += with_cond(None if c_some is False else bnot(c_some), k(st, Iter("succ", (), 0, (none(), f)), None))
+            return acts
         if kind == "chain":
             a, b = it.extra
             def ka(st2, a2, x):
@@ -1161,6 +1197,10 @@ def build_table(I):
     @reg("IntoIterator::into_iter")
     def into_iter(I, st, a, c):
         return as_iter(I, st, a[0])
+
+    @reg("successors")
+    def it_successors(I, st, a, c):
+        return Iter("succ", (), 0, (a[0], a[1]))
 
     @reg("Iterator::enumerate")
     def it_enumerate(I, st, a, c):
